@@ -123,6 +123,7 @@ type Engine struct {
 	readLog     []string
 	handles     map[int]*fileHandle
 	tier        string
+	feasTimeout int
 	feasCalls   int
 	feasMs      int64
 	redirects   map[string]*ssa.Function
@@ -259,12 +260,14 @@ func (e *Engine) runSide(s *State, im marker) (outs []*State) {
 	pc := append([]*Term(nil), s.pc...)
 	defer func() {
 		if r := recover(); r != nil {
-			if _, ok := r.(unsupportedErr); ok {
-				res := e.pool.Solve(pc, 20000, []SolverKind{kindZ3})
+			if u, ok := r.(unsupportedErr); ok && !u.checked {
+				res := e.pool.Solve(pc, 20000, defaultPortfolio)
 				if res.Verdict == Unsat {
 					outs = nil
 					return
 				}
+				u.checked = true
+				panic(u)
 			}
 			panic(r)
 		}
@@ -659,9 +662,12 @@ func (e *Engine) enter(st *State, target *ssa.BasicBlock, m marker) bool {
 }
 
 func (e *Engine) feasible(st *State, extra *Term) bool {
+	if e.feasTimeout <= 0 {
+		return true // pruning disabled: rely on unwinding bounds and deferred obligations
+	}
 	as := append(append([]*Term(nil), st.pc...), extra)
 	t0 := time.Now()
-	r := e.pool.Solve(as, 8000, defaultPortfolio)
+	r := e.pool.Solve(as, e.feasTimeout, defaultPortfolio)
 	e.feasCalls++
 	e.feasMs += time.Since(t0).Milliseconds()
 	return r.Verdict != Unsat
@@ -1003,6 +1009,10 @@ func (e *Engine) callFn(st *State, ci *callInfo, fn *ssa.Function, args []Value,
 		st.ret = nil
 		return st, nil
 	}
+	if rd := e.redirect(key); rd != nil && rd != fn {
+		e.stubsSeen[shortFn(key)+" -> harness model "+rd.Name()] = true
+		return e.callFn(st, ci, rd, args, nil)
+	}
 	if stub, ok := e.stubs[key]; ok {
 		ci.name = key
 		e.stubsSeen[shortFn(key)] = true
@@ -1011,10 +1021,6 @@ func (e *Engine) callFn(st *State, ci *callInfo, fn *ssa.Function, args []Value,
 			return nil, []*State{st}
 		}
 		return st, nil
-	}
-	if rd := e.redirect(key); rd != nil && rd != fn {
-		e.stubsSeen[shortFn(key)+" -> harness model "+rd.Name()] = true
-		return e.callFn(st, ci, rd, args, nil)
 	}
 	if strings.HasPrefix(fn.Name(), "verif") && e.isRepo(fn) {
 		if stub, ok := e.stubs["verif:"+intrinsicName(fn)]; ok {
@@ -1344,8 +1350,8 @@ func (e *Engine) step(st *State, fr *Frame, instr ssa.Instruction) {
 		l := e.alloc(st, &MapObj{T: mt})
 		fr.env[ins] = singleMap(l.Obj)
 	case *ssa.MakeSlice:
-		ln := Resize(e.get(st, fr, ins.Len).(*Term), 64, true)
-		cp := Resize(e.get(st, fr, ins.Cap).(*Term), 64, true)
+		ln := Resize(e.get(st, fr, ins.Len).(*Term), 64, isSigned(ins.Len.Type()))
+		cp := Resize(e.get(st, fr, ins.Cap).(*Term), 64, isSigned(ins.Cap.Type()))
 		fr.env[ins] = e.makeSlice(st, ins.Type().Underlying().(*types.Slice).Elem(), ln, cp, site)
 	case *ssa.Extract:
 		fr.env[ins] = e.get(st, fr, ins.Tuple).(*TupleV).E[ins.Index]
